@@ -1,5 +1,4 @@
 import Tuc.Model.Lines
-import Tuc.Model.FastLoop
 /-!
 # Tuc.Model.LinesLoop — `src/cut_lines.rs` and `read_line_with_eol`, statement by statement
 
@@ -51,7 +50,6 @@ Conventions (those of `Tuc.Model.FastLoop` / `Tuc.Model.StreamLoop`)
 
 namespace Tuc
 namespace LinesLoop
-open FastLoop
 
 /-! ## the reader -/
 
@@ -167,16 +165,19 @@ def innerWhile (opt : Opt) (line : Bytes) : Nat → Vars → Run × Vars
 
 /-! ## `while let Some(line) = read_line_with_eol(stdin, &mut line_buf, opt.eol)` (l.22-87) -/
 
+/-- l.23-26: `match line_idx.checked_add(1) { Some(n) => line_idx = n, None => past_last_index = true }` -/
+def nextLine (v : Vars) : Vars :=
+  match i32CheckedAdd v.lineIdx 1 with                                  -- 23 line_idx.checked_add(1)
+  | Option.some n => { v with lineIdx := n }                            -- 24
+  | Option.none => { v with pastLastIndex := true }                     -- 25
+
 def readWhile (opt : Opt) : Nat → Bytes → Vars → Run × Vars
   | 0, _, v => (Run.hang, v)
   | fuel + 1, stdin, v =>
     match readLineWithEol stdin opt.eol with                            -- 22
     | (.none, _) => (Run.empty, v)                                      -- the loop ends
     | (line, stdin) =>
-      let v :=
-        match i32CheckedAdd v.lineIdx 1 with                            -- 23 line_idx.checked_add(1)
-        | Option.some n => { v with lineIdx := n }                      -- 24
-        | Option.none => { v with pastLastIndex := true }               -- 25
+      let v := nextLine v                                               -- 23-26
       match line with                                                   -- 28 let line = line?;
       | .none => (Run.empty, v)                                         -- (not reached: matched above)
       | .someErr => (Run.fail, v)                                       -- 28 `?`
